@@ -420,8 +420,17 @@ fn gen_case(r: &mut Rng, seed: u64, idx: u64, toks: &mut HashMap<String, u64>) -
             } else { match r.below(5) { 0 | 1 => Mode::Before, 2 | 3 => Mode::After, _ => Mode::Alternate } };
             if plan.iter().any(|p| p.idx == i && p.mode == mode) { continue; }
             let structural = op.is_blockish() || matches!(op, Op::End);
-            if mode == Mode::Alternate && (structural || i < 2) { continue; }   // never replace the fingerprint constant
+            // never replace the fingerprint constant or a structural instruction -- except the function's final `end`, whose
+            // alternate (like its after code) the encoder drops: it must not be reported
+            if mode == Mode::Alternate && ((structural && i + 1 != body.len()) || i < 2) { continue; }
             plan.push(Probe { idx: i, mode, ops: gen_probe_ops(r), tg: ptag(r) });
+        }
+        if r.chance(1, 3) {
+            // a probe on the final `end` (before: encoded; after / alternate: dropped by the encoder), also in functions
+            // that carry special instrumentation
+            let i = body.len() - 1;
+            let mode = *r.pick(&[Mode::Before, Mode::After, Mode::Alternate, Mode::Alternate]);
+            if !plan.iter().any(|p| p.idx == i && p.mode == mode) { plan.push(Probe { idx: i, mode, ops: gen_probe_ops(r), tg: ptag(r) }); }
         }
         if special_ok && r.chance(1, 4) { entry = Some((gen_probe_ops(r), ptag(r))); }
         if special_ok && r.chance(1, 4) { exit = Some((gen_probe_ops(r), ptag(r))); }
